@@ -3,6 +3,7 @@
   operate on the gateway state embedded in the ITS world).
 -/
 import Cgp.Its
+import Cgp.ItsOps
 import Cgp.Keccak
 import Cgp.Drive.Gw
 namespace Cgp.Drive.ItsD
@@ -81,6 +82,13 @@ def putTok (s : ItsS) (a : Addr) (t : Tok) : ItsS :=
   | none => { s with preTokens := (a, t) :: s.preTokens.filter (·.1 ≠ a) }
 
 def optHexOrTilde (x : String) : Option (Option Bytes) := if x = "~" then some none else (ofHex x).map some
+
+/-- upgrade to the same code + the migration, with the authorisers `auths`, run through the transition system `Cgp.Its.step` -/
+def upgradeMigrate (s : ItsS) (st : State) (auths : List Addr) : ItsS × StepOut :=
+  match Its.step H S s.k st (.upgradeMigrate auths) with
+  | (_, .err .unauthorized) => (s, ⟨"err", "unauthorized", none⟩)
+  | (_, .err e) => (s, ⟨"err", errName e, none⟩)
+  | (st', _) => ({ s with st := some st' }, ⟨"ok", "ok", none⟩)
 
 def step (s : ItsS) (t : List String) (implObs : String) : ItsS × StepOut :=
   match t with
@@ -239,10 +247,10 @@ def step (s : ItsS) (t : List String) (implObs : String) : ItsS × StepOut :=
         | some n, some au => finEv s (transferOwnership st (au.toList [st.owner]) n)
         | _, _ => bad s op
       | "its.upgrade_migrate", [auth] =>
-        -- upgrade to the same code + migration of the current tree: owner only, and the identity on everything modelled
-        if auth = "@" then (s, ⟨"ok", "ok", none⟩) else
+        -- upgrade to the same code + migration of the current tree: the model's `.upgradeMigrate`
+        if auth = "@" then upgradeMigrate s st [st.owner] else
         match parseTreeAuth auth with
-        | some au => if st.owner ∈ au.toList [st.owner] then (s, ⟨"ok", "ok", none⟩) else (s, ⟨"err", "unauthorized", none⟩)
+        | some au => upgradeMigrate s st (au.toList [st.owner])
         | none => bad s op
       | "its.owner", [] => (s, ⟨"ok " ++ addrTok st.owner, "ok", none⟩)
       | "its.is_trusted", [c] =>
